@@ -183,7 +183,8 @@ PROPS = {
         technique='Verus contracts on the real compare-exchange layer (push_gt_circuit, push_condswap, push_eq_circuit)',
         claim='Unbounded deductive proof (Verus/Z3) of the compare-exchange layer used by join: push_gt_circuit returns exactly the unsigned '
               'comparison of the first `bits` wires for every width; push_condswap swaps exactly when the selector is true; '
-              'push_eq_circuit is exact equality; push_sorter is a whole-element compare-exchange on the first `bits` wires. The bitonic network '
+              'push_eq_circuit is exact equality; push_sorter is a whole-element compare-exchange on the first `bits` wires; the per-entry closure of the '
+              'join built-in forces every wire but the flag to zero where the pair is not joined (unflagged entries are all zero). The bitonic network '
               'topology (push_bitonic_merger / push_bitonic_sorter) and compile_bitonic_merge (padding, tag bit, duplicate guard) are NOT under '
               'contract: a bounded differential through compile + eval runs for-join loops and the join built-in for every size pair up to (4,4) '
               '(thorough (8,8)) on sorted key arrays (random keys incl. 0 and 255, identical and disjoint sets, one key repeated within one array) '
